@@ -96,23 +96,56 @@ func (c *Ctx) INT1(rule string) []report.Obligation {
 	if f == nil {
 		return []report.Obligation{anchorViolation(rule, "interpolation.recursiveInterpolate")}
 	}
-	// the Substitute call (dynamic call through opts.Substitute) is reachable only in the string arm
-	subst := callSites(f, func(com *ssa.CallCommon) bool {
-		return com.StaticCallee() == nil && !com.IsInvoke() && loadedField(com.Value) == "Substitute"
-	})
-	good := len(subst) == 1
-	if good {
-		good = factHolds(subst[0].Block(), func(cond ssa.Value, val bool) bool {
-			ex, ok := cond.(*ssa.Extract)
-			if !ok || !val || ex.Index != 1 {
-				return false
+	// every Substitute call (dynamic call through opts.Substitute) of the package receives the string a value
+	// was asserted to hold: directly, or through the string parameter of a helper all of whose callers do so
+	var fromStringAssert func(fn *ssa.Function, v ssa.Value, depth int) bool
+	fromStringAssert = func(fn *ssa.Function, v ssa.Value, depth int) bool {
+		if depth == 0 {
+			return false
+		}
+		switch x := v.(type) {
+		case *ssa.TypeAssert:
+			return isStringType(x.AssertedType) && types.IsInterface(x.X.Type())
+		case *ssa.Extract:
+			if ta, ok := x.Tuple.(*ssa.TypeAssert); ok && x.Index == 0 {
+				return isStringType(ta.AssertedType) && types.IsInterface(ta.X.Type())
 			}
-			ta, ok := ex.Tuple.(*ssa.TypeAssert)
-			return ok && ta.X == ssa.Value(f.Params[0]) && isStringType(ta.AssertedType)
-		})
+		case *ssa.Parameter:
+			idx := -1
+			for i, pa := range fn.Params {
+				if pa == x {
+					idx = i
+				}
+			}
+			callers := 0
+			for _, g := range c.P.Funcs {
+				for _, cs := range callSites(g, func(com *ssa.CallCommon) bool { return com.StaticCallee() == fn }) {
+					callers++
+					if idx < 0 || idx >= len(cs.Common().Args) || !fromStringAssert(g, cs.Common().Args[idx], depth-1) {
+						return false
+					}
+				}
+			}
+			return callers > 0
+		}
+		return false
 	}
-	out = append(out, verdict(good, rule, "recursiveInterpolate :: substitution only on string scalars", c.P.Pos(f.Pos()),
-		"the Substitute call is reachable only on the ok edge of value.(string)", "substitution is applied to something else than a string scalar (or not at all)"))
+	nSubst, good := 0, true
+	for _, g := range c.P.Funcs {
+		if !strings.HasPrefix(c.P.FuncID(g), "interpolation.") {
+			continue
+		}
+		for _, cs := range callSites(g, func(com *ssa.CallCommon) bool {
+			return com.StaticCallee() == nil && !com.IsInvoke() && loadedField(com.Value) == "Substitute"
+		}) {
+			nSubst++
+			if len(cs.Common().Args) == 0 || !fromStringAssert(g, cs.Common().Args[0], 3) {
+				good = false
+			}
+		}
+	}
+	out = append(out, verdict(good && nSubst > 0, rule, "recursiveInterpolate :: substitution only on string scalars", c.P.Pos(f.Pos()),
+		"every Substitute call of the package receives the result of value.(string)", "substitution is applied to something else than a string scalar (or not at all)"))
 	// the mapping arm stores under the range key
 	keyed := false
 	for _, l := range findMapLoops(f) {
@@ -1212,6 +1245,202 @@ func (c *Ctx) GATEW(rule string) []report.Obligation {
 	}
 	if n == 0 {
 		out = append(out, bad(rule, "Options :: writers", "", "no store to a loader.Options field found: the rule sees nothing"))
+	}
+	return out
+}
+
+// ---------------------------------------------------------------------------
+// LOOKUP: variable lookups (functions of type func(string) (string, bool):
+// dotenv.LookupFn, template.Mapping, the closures handed to the env-file
+// parser) distinguish "set to the empty string" from "unset" through their
+// boolean result only, and are pure.
+//   LOOKUP-1  in packages dotenv and types, the string result of a call of such a
+//             function value is never compared with "" (nor its length with 0):
+//             whether a variable was found is decided by ok alone.
+//   LOOKUP-2  a function or closure of that type defined in dotenv, types, loader or
+//             cli writes no memory outside its own frame (no memo of earlier
+//             answers: the layers it reads keep changing while a file is parsed).
+// ---------------------------------------------------------------------------
+
+func isLookupSig(t types.Type) bool {
+	sig, ok := t.Underlying().(*types.Signature)
+	if !ok || sig.Params().Len() != 1 || sig.Results().Len() != 2 || sig.Recv() != nil {
+		return false
+	}
+	return isStringType(sig.Params().At(0).Type()) && isStringType(sig.Results().At(0).Type()) && isBoolType(sig.Results().At(1).Type())
+}
+
+func isBoolType(t types.Type) bool {
+	b, ok := t.Underlying().(*types.Basic)
+	return ok && b.Kind() == types.Bool
+}
+
+func (c *Ctx) LOOKUP(rule string, pkgs ...string) []report.Obligation {
+	var out []report.Obligation
+	inPkgs := func(id string) bool {
+		for _, p := range pkgs {
+			if strings.HasPrefix(id, p+".") {
+				return true
+			}
+		}
+		return false
+	}
+	n1, n2 := 0, 0
+	for _, fn := range c.P.Funcs {
+		id := c.P.FuncID(fn)
+		if !inPkgs(id) {
+			continue
+		}
+		// LOOKUP-1
+		if strings.HasPrefix(id, "dotenv.") || strings.HasPrefix(id, "types.") {
+			for _, b := range fn.Blocks {
+				for _, in := range b.Instrs {
+					call, ok := in.(*ssa.Call)
+					if !ok || call.Call.IsInvoke() || call.Call.StaticCallee() != nil || !isLookupSig(call.Call.Value.Type()) {
+						continue
+					}
+					n1++
+					var cmp ssa.Instruction
+					for _, r := range *call.Referrers() {
+						ex, ok := r.(*ssa.Extract)
+						if !ok || ex.Index != 0 {
+							continue
+						}
+						for _, u := range *ex.Referrers() {
+							switch x := u.(type) {
+							case *ssa.BinOp:
+								if x.Op == token.EQL || x.Op == token.NEQ {
+									if sv, isC := prog.ConstString(x.Y); isC && sv == "" {
+										cmp = x
+									}
+									if sv, isC := prog.ConstString(x.X); isC && sv == "" {
+										cmp = x
+									}
+								}
+							case *ssa.Call:
+								if bi, isB := x.Call.Value.(*ssa.Builtin); isB && bi.Name() == "len" {
+									for _, lu := range *x.Referrers() {
+										if bo, isBO := lu.(*ssa.BinOp); isBO {
+											if k, isC := constInt(bo.Y); isC && k == 0 {
+												cmp = bo
+											}
+										}
+									}
+								}
+							}
+						}
+					}
+					key := id + " :: found is decided by ok alone for " + c.P.KeyTerm(call, 1)
+					if cmp == nil {
+						out = append(out, okOb(rule+"-1", key, c.P.InstrPos(call), "the looked-up value is not compared with the empty string"))
+					} else {
+						out = append(out, bad(rule+"-1", key, c.P.InstrPos(cmp), "the looked-up value is compared with the empty string: a variable set to \"\" in an outer layer is treated like an unset one"))
+					}
+				}
+			}
+		}
+		// LOOKUP-2
+		if isLookupSig(fn.Signature) && fn.Blocks != nil {
+			n2++
+			var w ssa.Instruction
+			for _, b := range fn.Blocks {
+				for _, in := range b.Instrs {
+					switch x := in.(type) {
+					case *ssa.Store:
+						if !isLocalAlloc(x.Addr) {
+							w = in
+						}
+					case *ssa.MapUpdate:
+						w = in
+					case ssa.CallInstruction:
+						if bi, isB := x.Common().Value.(*ssa.Builtin); isB && (bi.Name() == "delete" || bi.Name() == "copy") {
+							w = in
+						}
+					}
+				}
+			}
+			key := id + " :: lookup function is pure"
+			if w == nil {
+				out = append(out, okOb(rule+"-2", key, c.P.Pos(fn.Pos()), "no store, map update or delete outside its own frame"))
+			} else {
+				out = append(out, bad(rule+"-2", key, c.P.InstrPos(w), "the lookup function writes shared state (a memo of earlier answers): the layers it reads change while files are parsed, so a remembered answer goes stale"))
+			}
+		}
+	}
+	if n1 == 0 || n2 == 0 {
+		out = append(out, bad(rule, "lookup sites", "", fmt.Sprintf("calls of lookup function values: %d, lookup functions defined: %d: the rule sees nothing", n1, n2)))
+	}
+	return out
+}
+
+func okOb(rule, key, pos, why string) report.Obligation { return ok(rule, key, pos, why) }
+
+// ---------------------------------------------------------------------------
+// URLCTX (C12): "URL-like build contexts (any scheme://) are left as written".
+// In the resolver of the build-context attributes, a return of the unchanged
+// string lies on the true edge of a plain substring test for "://" on that
+// string (strings.Contains, strings.Index >= 0, strings.Cut found): the test
+// does not depend on the scheme being known or on the rest being parseable.
+// ---------------------------------------------------------------------------
+
+func (c *Ctx) URLCTX(rule string) []report.Obligation {
+	var out []report.Obligation
+	n := 0
+	for _, fn := range c.P.Funcs {
+		if !strings.HasPrefix(c.P.FuncID(fn), "paths.") || !strings.Contains(strings.ToLower(fn.Name()), "context") || len(fn.Blocks) == 0 {
+			continue
+		}
+		// resolver shape: (value any) (any, error) method of the resolver
+		if fn.Signature.Results().Len() != 2 || !isErrorType(fn.Signature.Results().At(1).Type()) {
+			continue
+		}
+		n++
+		isSubstr := func(cond ssa.Value, val bool) bool {
+			switch x := cond.(type) {
+			case *ssa.Call:
+				if staticName(&x.Call) == "strings.Contains" && val {
+					if s, ok := prog.ConstString(x.Call.Args[1]); ok && s == "://" {
+						return true
+					}
+				}
+			case *ssa.BinOp:
+				if call, ok := x.X.(*ssa.Call); ok && staticName(&call.Call) == "strings.Index" {
+					if s, ok := prog.ConstString(call.Call.Args[1]); ok && s == "://" {
+						k, isC := constInt(x.Y)
+						switch {
+						case isC && k == 0 && x.Op == token.GEQ && val, isC && k == -1 && x.Op == token.NEQ && val, isC && k == -1 && x.Op == token.GTR && val,
+							isC && k == 0 && x.Op == token.LSS && !val, isC && k == -1 && x.Op == token.EQL && !val:
+							return true
+						}
+					}
+				}
+			case *ssa.Extract:
+				if call, ok := x.Tuple.(*ssa.Call); ok && staticName(&call.Call) == "strings.Cut" && x.Index == 2 && val {
+					if s, ok := prog.ConstString(call.Call.Args[1]); ok && s == "://" {
+						return true
+					}
+				}
+			}
+			return false
+		}
+		good := false
+		for _, r := range returnsOf(fn) {
+			if !isNilOrConst(retValue(r, 1)) {
+				continue
+			}
+			if _, isMI := retValue(r, 0).(*ssa.MakeInterface); !isMI {
+				continue
+			}
+			if factHolds(r.Block(), isSubstr) {
+				good = true
+			}
+		}
+		out = append(out, verdict(good, rule, c.P.FuncID(fn)+" :: any scheme:// is returned unchanged", c.P.Pos(fn.Pos()),
+			"a successful return of the value itself lies on the true edge of a substring test for \"://\"",
+			"no return of the unchanged value is decided by a plain substring test for \"://\": a context such as docker-image://alpine:3.20 that a stricter URL test rejects is treated as a local path and rebased"))
+	}
+	if n == 0 {
+		out = append(out, bad(rule, "paths :: build context resolver", "", "no resolver for build contexts found in package paths: the rule sees nothing"))
 	}
 	return out
 }
